@@ -8,6 +8,7 @@ CONSTANTS
   MaxStepFaults = 3
   Vs <- MC_VsFixed
   WithRelease = TRUE
+  WithTrunc = FALSE
   MaxSess = 2
 VIEW View
 CHECK_DEADLOCK FALSE
